@@ -53,8 +53,10 @@ Definition invisible_of (s : sx) : bool :=
 Definition kind_of (s : sx) : option (outcome * bool) :=
   match s with
   | SList [SInt o; SInt g] =>
-      (* 3 / 4: a nil / typed-nil Runnable: running it panics inside run() (recovered) *)
-      Some ((if Z.eqb o 1 then OErr else if (Z.eqb o 2 || Z.eqb o 3 || Z.eqb o 4)%bool then OPanic else OOk), Z.eqb g 1)
+      (* 3 / 4: a nil / typed-nil Runnable: running it panics inside run() (recovered); 6..9: errors of
+         other concrete types; 11: the same Task object as the previous submission, submitted again *)
+      Some ((if (Z.eqb o 1 || ((6 <=? o) && (o <=? 9)))%bool%Z then OErr
+             else if (Z.eqb o 2 || Z.eqb o 3 || Z.eqb o 4)%bool then OPanic else OOk), Z.eqb g 1)
   | _ => None
   end.
 
